@@ -48,7 +48,7 @@ theorem closeComment_bnd (s : Style) {st} {b3 : Buf} {m : Mode} (hm : m = Mode.c
 
 theorem writeComment_bnd (q : WQuirks) (s : Style) (text : Bytes) {st} {b : Buf}
     (h : Bnd s st b.rev)
-    (hok : (decide (text.head? = some 35) || cmtOk (commentText q s b.indent text)) = true) :
+    (hok : (skipComment text || cmtOk (commentText q s b.indent text)) = true) :
     Bnd s st (writeComment q s text b).rev ∧ (writeComment q s text b).indent = b.indent := by
   unfold writeComment
   split
@@ -57,7 +57,7 @@ theorem writeComment_bnd (q : WQuirks) (s : Style) (text : Bytes) {st} {b : Buf}
     · exact ⟨nrm0_addStr_neutral neutral_nl h.1.nrm, by intro h; cases h⟩
     · simpa [Buf.addOne, Bnd, Nrm0, addStr_rev] using h
   · next hne =>
-    simp only [hne, decide_false, Bool.false_or] at hok
+    simp only [hne, Bool.false_or] at hok
     obtain ⟨m, hm, hscan⟩ := cmtOk_scan hok
     refine ⟨?_, by simp [addOne_indent, addStr_indent, doIndentNoNl_indent]⟩
     have h1 := doIndentNoNl_nrm0 s h.1
